@@ -76,3 +76,22 @@ Require Copia.Proofs.TieCas.
 Theorem C13_model_is_translation_of_source : TieCas.cas_model_is_translation.
 Proof. exact TieCas.cas_model_is_translation_holds. Qed.
 Print Assumptions C13_model_is_translation_of_source.
+
+(** How the command line names the other side: `host:path` splits at the FIRST colon, and is remote only when the
+    host part qualifies (sync arguments: longer than one character, no slash or backslash - main.rs FileLocation::parse;
+    hub targets: non-empty, no slash - hub.rs split_target); the models are the translation of the current source
+    (Model/Targets.v, Gen/TargetsGen.v, Proofs/TargetsProofs.v). *)
+Require Copia.Model.Targets Copia.Proofs.TargetsProofs.
+Theorem C13_split_target_spec : forall t h r : list BinNums.Z,
+  Targets.split_target t = Some (h, r) <->
+  t = h ++ Targets.COLON :: r /\ h <> nil /\ ~ In Targets.COLON h /\ ~ In Targets.SLASH h.
+Proof. exact TargetsProofs.split_target_spec. Qed.
+Print Assumptions C13_split_target_spec.
+Theorem C13_parse_location_remote_spec : forall s h p : list BinNums.Z,
+  Targets.parse_location s = Targets.LRemote h p <->
+  s = h ++ Targets.COLON :: p /\ (1 < BinInt.Z.of_nat (length h))%Z /\ ~ In Targets.COLON h /\ ~ In Targets.SLASH h /\ ~ In Targets.BACKSLASH h.
+Proof. exact TargetsProofs.parse_location_remote_spec. Qed.
+Print Assumptions C13_parse_location_remote_spec.
+Theorem C13_targets_are_translation_of_source : TargetsProofs.targets_model_is_translation.
+Proof. exact TargetsProofs.targets_model_is_translation_holds. Qed.
+Print Assumptions C13_targets_are_translation_of_source.
